@@ -23,6 +23,9 @@ type shape struct {
 	// CondOut: bit i set = outgoing flow i of the gateway under test carries a
 	// (false) condition expression; a parallel gateway ignores conditions
 	CondOut int
+	// CondRaw: 0 = the conditions are "false"; 1..3 = text that cannot be
+	// evaluated (undefined variable / non-boolean / foreign syntax) - equally ignored
+	CondRaw int
 }
 
 type built struct {
@@ -64,6 +67,14 @@ func build(s shape) *built {
 	cond := func(f *gen.Flow, i int) {
 		if s.CondOut&(1<<i) != 0 {
 			f.Cond, f.Formal = gen.False(), true
+			switch s.CondRaw {
+			case 1:
+				f.Cond = gen.Raw("undefinedVariable9 > 1")
+			case 2:
+				f.Cond = gen.Raw("1 + 1")
+			case 3:
+				f.Cond = gen.Raw("${x}")
+			}
 		}
 	}
 	if s.M == 1 {
@@ -210,7 +221,8 @@ func TestC03Table(t *testing.T) {
 					if total%2 == 1 {
 						co = 1 + total%((1<<m)-1)
 					}
-					d := descriptor{Shape: shape{N: n, M: m, CondOut: co}, Activations: 1, Schedule: append(append([]int(nil), up...), dn...)}
+					// (of those, three in four carry text that cannot be evaluated at all)
+					d := descriptor{Shape: shape{N: n, M: m, CondOut: co, CondRaw: (total / 2) % 4}, Activations: 1, Schedule: append(append([]int(nil), up...), dn...)}
 					out, isNT := run(t, "TestC03Table", d, nil)
 					total++
 					if isNT {
@@ -258,7 +270,7 @@ func TestC03Reentry(t *testing.T) {
 		return
 	}
 	rapid.Check(t, func(rt *rapid.T) {
-		d := descriptor{Shape: shape{N: rapid.IntRange(1, 4).Draw(rt, "N"), M: rapid.IntRange(1, 4).Draw(rt, "M"), CondOut: rapid.IntRange(0, 15).Draw(rt, "condOut")},
+		d := descriptor{Shape: shape{N: rapid.IntRange(1, 4).Draw(rt, "N"), M: rapid.IntRange(1, 4).Draw(rt, "M"), CondOut: rapid.IntRange(0, 15).Draw(rt, "condOut"), CondRaw: rapid.IntRange(0, 3).Draw(rt, "condRaw")},
 			Activations: rapid.IntRange(2, 3).Draw(rt, "activations")}
 		pick := func(n int) int {
 			v := rapid.IntRange(0, n-1).Draw(rt, "pick")
